@@ -19,6 +19,12 @@ def step (d : DSt) (line : String) : DSt × String :=
     if l.sess.length ≥ 3 then (d, "bad-op")
     else if l.closed then (d, "refused " ++ snap l)
     else let l' := newSess l; ({ l := l' }, "ok " ++ snap l')
+  | ["latedial", c] =>
+    -- the handshake of an accepted connection completes after (c = 1) the listener was closed
+    if c ≠ "0" ∧ c ≠ "1" then (d, "bad-op")
+    else if l.sess.length ≥ 3 then (d, "bad-op")
+    else if l.closed then (d, "refused " ++ snap l)
+    else let l' := newSess (if c == "1" then close l else l); ({ l := l' }, "ok " ++ snap l')
   | ["open", k] =>
     match l.sess[Drv.nat! k]? with
     | none => (d, "bad-op")
